@@ -19,7 +19,7 @@ type AV interface{}
 type BoolV struct {
 	T, F bool // may be true / may be false
 	Opq  bool
-	Der  bool // undecided comparison between computed floats: the two outcomes may be correlated with earlier ones
+	Der  bool       // undecided comparison between computed floats: the two outcomes may be correlated with earlier ones
 	Src  *floatFact // Interp.Terms only: the comparison this undecided value came from
 	Neg  bool       // ... negated
 }
@@ -28,9 +28,9 @@ type IntV struct {
 	Known bool
 	V     int64 // two's complement bits, interpreted by the static type
 	Opq   bool
-	Sym   int   // >0: symbolic value Sym*A+B over symbol table (stage 2)
+	Sym   int // >0: symbolic value Sym*A+B over symbol table (stage 2)
 	A, B  int64
-	Bits  *bitVec // bit-level reading of an unsigned value (interp_bits.go), nil when not tracked
+	Bits  *bitVec  // bit-level reading of an unsigned value (interp_bits.go), nil when not tracked
 	Hex   *hexChar // Interp.Precise: this byte is a hex digit of another (unknown) byte
 }
 
@@ -44,9 +44,9 @@ type FloatV struct {
 	Known  bool
 	V      float64
 	Opq    bool
-	Finite bool // an input the properties' domains keep finite (coordinates, thresholds)
-	Sym    int  // >0: identity of this unknown; State.fsyms keeps the interval comparisons with constants have established
-	Input  bool // the unknown is a direct input (coordinate, parameter), independent of every other input
+	Finite bool   // an input the properties' domains keep finite (coordinates, thresholds)
+	Sym    int    // >0: identity of this unknown; State.fsyms keeps the interval comparisons with constants have established
+	Input  bool   // the unknown is a direct input (coordinate, parameter), independent of every other input
 	Term   *fterm // Interp.Terms only: the rational function of identified unknowns this value denotes
 }
 
@@ -77,7 +77,7 @@ type SliceV struct {
 	MayNil  bool
 	Arr     int
 	Lo, Hi  int
-	Cap     int // absolute end of capacity in the backing array
+	Cap     int  // absolute end of capacity in the backing array
 	CapUnk  bool // capacity not known (make with an undetermined cap): at least Hi
 	Hostile bool // filled from hostile input: length and elements are attacker-chosen
 }
@@ -93,28 +93,28 @@ type StructV struct {
 }
 
 type IfaceV struct {
-	Nil  bool
-	Top  bool // unknown dynamic value
-	Opq  bool
-	User bool // caller-supplied implementation: methods are pure and return free values
+	Nil    bool
+	Top    bool // unknown dynamic value
+	Opq    bool
+	User   bool // caller-supplied implementation: methods are pure and return free values
 	MayNil bool
-	Typ  types.Type
-	Val  AV
+	Typ    types.Type
+	Val    AV
 }
 
 type FuncV struct {
 	Nil      bool
 	Top      bool
 	Opq      bool
-	User     bool // caller-supplied function: pure, returns free values
+	User     bool        // caller-supplied function: pure, returns free values
 	Fn       interface{} // *ssa.Function
 	Bindings []AV
 	Recv     AV // bound method receiver (MakeClosure of bound method wrappers)
 }
 
 type MapV struct {
-	Nil bool
-	Opq bool
+	Nil  bool
+	Opq  bool
 	Cell int
 }
 
